@@ -73,43 +73,38 @@ Fixpoint adds (l : layer) (m : meta) : list interest :=
   end.
 Definition gnever (m : meta) (gs : list filt) : bool := existsb (fun g => is_never (f_interest g m)) gs.
 
-Lemma glob_free_globs : forall l, glob_free l -> globs l = [].
-Proof.
-  induction l using layer_ind'; simpl; intros Hp; auto.
-  - destruct Hp.
-  - destruct Hp as [Ho Hi]. rewrite IHl1, IHl2; auto.
-  - induction ls as [|x xs IH]; simpl in *; auto. inversion H; subst. destruct Hp as [Hx Hxs].
-    rewrite H2 by auto. simpl. apply IH; auto.
-Qed.
 Lemma psf_globs : forall l, shape l -> psf l = true -> globs l = [].
 Proof.
   induction l using layer_ind'; simpl; intros Hs Hp; try discriminate; auto.
   - destruct Hs. apply plain_globs. auto.
   - destruct Hs. apply andb_true_iff in Hp. destruct Hp. rewrite IHl1, IHl2; auto.
-  - clear Hp. induction ls as [|x xs IH]; simpl in *; auto. inversion H; subst. destruct Hs as [[Hg _] Hxs].
-    rewrite (glob_free_globs x Hg). simpl. apply IH; auto.
+  - apply andb_true_iff in Hp. destruct Hp as [_ Hp].
+    induction ls as [|x xs IH]; simpl in *; auto. inversion H; subst. destruct Hs as [Hx Hxs].
+    apply andb_true_iff in Hp. destruct Hp as [Hpx Hpxs]. rewrite H2 by auto. simpl. apply IH; auto.
 Qed.
 
-Lemma vec_merge_nn : forall acc ni, ni <> INever -> vec_merge acc ni <> INever.
-Proof. intros acc ni H. unfold vec_merge. destruct acc, ni; simpl; congruence. Qed.
+Lemma vec_verdict_nn : forall aa, vec_verdict false aa <> INever.
+Proof. intros []; discriminate. Qed.
+Lemma vec_verdict_na : forall an, vec_verdict an false <> IAlways.
+Proof. intros []; discriminate. Qed.
 
 (** ** one layer: no global filter says never *)
 Definition RegOk (l : layer) : Prop := forall ov m p,
-  shape l -> novoid l -> gnever m (globs l) = false ->
+  shape l -> gnever m (globs l) = false ->
   fst (l_register ov l m p) <> INever /\ snd (l_register ov l m p) = psum p (adds l m).
 
 Lemma l_register_ok : forall l, RegOk l.
 Proof.
-  induction l using layer_ind'; intros ov m p Hs Hv Hg; simpl in *.
+  induction l using layer_ind'; intros ov m p Hs Hg; simpl in *.
   - split; auto. discriminate.
   - split; auto. rewrite orb_false_r in Hg. destruct (f_interest g m); simpl in *; congruence.
   - destruct Hs as [Hpl Hs]. split; [discriminate|].
     rewrite psum_app. simpl. destruct (is_never (f_interest f m)); auto.
-    destruct (IHl ov m p Hs Hv) as [_ E]. { rewrite (plain_globs _ Hpl). reflexivity. } rewrite E. reflexivity.
-  - destruct Hs as [Hso Hsi]. destruct Hv as [Hvo Hvi]. unfold gnever in Hg. rewrite existsb_app in Hg. apply orb_false_iff in Hg. destruct Hg as [Hgo Hgi].
-    destruct (IHl1 ov m p Hso Hvo Hgo) as [No Eo].
+    destruct (IHl ov m p Hs) as [_ E]. { rewrite (plain_globs _ Hpl). reflexivity. } rewrite E. reflexivity.
+  - destruct Hs as [Hso Hsi]. unfold gnever in Hg. rewrite existsb_app in Hg. apply orb_false_iff in Hg. destruct Hg as [Hgo Hgi].
+    destruct (IHl1 ov m p Hso Hgo) as [No Eo].
     destruct (l_register ov l1 m p) as [oi p1]. simpl in No, Eo. subst p1.
-    destruct (IHl2 ov m (psum p (adds l1 m)) Hsi Hvi Hgi) as [Ni Ei].
+    destruct (IHl2 ov m (psum p (adds l1 m)) Hsi Hgi) as [Ni Ei].
     rewrite psum_app. unfold pick_interest.
     destruct (psf l1); auto.
     destruct (is_never oi) eqn:En. { destruct oi; simpl in En; congruence. }
@@ -118,17 +113,17 @@ Proof.
     destruct (is_never ii) eqn:En2. { destruct ii; simpl in En2; congruence. } simpl. auto.
   - split; auto. discriminate.
   - apply IHl; auto.
-  - destruct Hv as [Hne Hv].
-    assert (G : forall acc p, (acc <> INever \/ ls <> []) ->
-               fst (reg_fold (fun x p => l_register ov x m p) ls acc p) <> INever /\
-               snd (reg_fold (fun x p => l_register ov x m p) ls acc p) = psum p (flat_map (fun x => adds x m) ls)).
-    { clear Hne. induction ls as [|x xs IH]; intros acc p0 Hacc; simpl.
-      - split; auto. destruct Hacc; auto.
-      - inversion H; subst. simpl in Hs, Hv, Hg. destruct Hs as [[Hgf Hsx] Hsxs]. destruct Hv as [Hvx Hvxs].
+  - assert (G : forall an aa p,
+               (an = false -> fst (reg_fold (fun x p => l_register ov x m p) ls an aa p) <> INever) /\
+               snd (reg_fold (fun x p => l_register ov x m p) ls an aa p) = psum p (flat_map (fun x => adds x m) ls)).
+    { induction ls as [|x xs IH]; intros an aa p0; simpl.
+      - split; auto. intros ->. apply vec_verdict_nn.
+      - inversion H; subst. simpl in Hs, Hg. destruct Hs as [Hsx Hsxs].
         unfold gnever in Hg. rewrite existsb_app in Hg. apply orb_false_iff in Hg. destruct Hg as [Hgx Hgxs].
-        destruct (H2 ov m p0 Hsx Hvx Hgx) as [Nx Ex]. destruct (l_register ov x m p0) as [ni p1]. simpl in Nx, Ex. subst p1.
-        rewrite psum_app. apply IH; auto. left. apply vec_merge_nn. auto. }
-    apply G. right. auto.
+        destruct (H2 ov m p0 Hsx Hgx) as [Nx Ex]. destruct (l_register ov x m p0) as [ni p1]. simpl in Nx, Ex. subst p1.
+        rewrite psum_app. destruct (IH H3 Hsxs Hgxs (an || is_never ni) (aa && is_always ni) (psum p0 (adds x m))) as [I1 I2].
+        split; auto. intros ->. apply I1. destruct ni; simpl; congruence. }
+    destruct (G false true p) as [G1 G2]. split; auto.
 Qed.
 
 (** ** one layer: a global filter that is not `always` keeps the layer's answer away from `always` *)
@@ -150,8 +145,17 @@ Proof.
       destruct (is_sometimes oi) eqn:Es. { destruct oi; simpl in *; congruence. }
       destruct (is_never ii && _); simpl; congruence.
   - apply IHl; auto.
-  - exfalso. clear H. induction ls as [|x xs IH]; simpl in *; try discriminate. destruct Hs as [[Hgf _] Hsxs].
-    rewrite (glob_free_globs x Hgf) in Hg. simpl in Hg. auto.
+  - assert (G : forall an aa p, (aa = false \/ gnotalways m (flat_map globs ls) = true) ->
+               fst (reg_fold (fun x p => l_register ov x m p) ls an aa p) <> IAlways).
+    { clear Hg. induction ls as [|x xs IH]; intros an aa p0 Hc; simpl.
+      - destruct Hc as [->|Hc]; [apply vec_verdict_na | discriminate].
+      - inversion H; subst. simpl in Hs. destruct Hs as [Hsx Hsxs].
+        destruct (l_register ov x m p0) as [ni p1] eqn:Ex. apply IH; auto.
+        destruct Hc as [->|Hc]; [left; reflexivity|].
+        simpl in Hc. unfold gnotalways in Hc. rewrite existsb_app in Hc. apply orb_true_iff in Hc. destruct Hc as [Hc|Hc].
+        + left. pose proof (H2 ov m p0 Hsx Hc) as Nx. rewrite Ex in Nx. simpl in Nx. destruct ni; simpl; try congruence; apply andb_false_r.
+        + right. exact Hc. }
+    apply G. right. exact Hg.
 Qed.
 
 (** ** what the added interests say about the leaves *)
